@@ -129,6 +129,9 @@ pub struct SeqProp {
     pub supersede_reopens: usize,
     /// keep what canonical-state deduplication needs (sealed memtable shadow, journal records)
     pub dedup: bool,
+    /// C03: after every program a process-crash image (directory copy while the database is open) is recovered and
+    /// every committed batch/transaction must be present entirely or not at all
+    pub crash_atomicity_oracle: bool,
 }
 
 /// A deterministic compaction filter decided from the key, and the keyspaces it is assigned to.
@@ -208,6 +211,7 @@ impl SeqProp {
             filter_oracle: None,
             supersede_reopens: 0,
             dedup: false,
+            crash_atomicity_oracle: false,
         }
     }
 }
@@ -327,6 +331,9 @@ impl Property for SeqProp {
         }
         if self.supersede_reopens > 0 {
             return self.check_supersede(w);
+        }
+        if self.crash_atomicity_oracle {
+            return self.check_crash_atomicity(w);
         }
         if self.judge_only_after_reopen && w.wit.reopened == 0 {
             // not this property's business; still compute digests when it agrees
@@ -474,6 +481,69 @@ fn fresh_dir_like() -> PathBuf {
 }
 
 impl SeqProp {
+    /// C03: process-crash image of the current state; every logged write group is recovered all-or-nothing.
+    fn check_crash_atomicity(&self, w: &mut World) -> Result<Vec<u64>, Violation> {
+        if w.db.is_none() {
+            return Ok(vec![]);
+        }
+        let img = fresh_dir_like();
+        crate::crash::copy_tree(&w.dir, &img).map_err(|e| Violation::new("harness", format!("copy: {e}")))?;
+        let rec = crate::crash::recover_and_observe(&img, &w.cfg);
+        let _ = std::fs::remove_dir_all(&img);
+        let content = match rec {
+            crate::crash::Recovered::Ok { content, inconsistent: None } => content,
+            crate::crash::Recovered::Ok { inconsistent: Some(d), .. } => return Err(Violation::new("crash_image.inconsistent_reads", d)),
+            crate::crash::Recovered::OpenErr(e) => return Err(Violation::new("crash_image.open_error", e)),
+            crate::crash::Recovered::Panic(e) => return Err(Violation::new("crash_image.recovery_panic", e)),
+        };
+        let empty = Map::new();
+        let mut partial = 0u64;
+        for (gi, g) in w.write_log.iter().enumerate() {
+            if g.len() < 2 {
+                continue;
+            }
+            // items not overwritten (or cleared away) by a later group
+            let mut flags: Vec<(String, bool)> = vec![];
+            for (idx, (ks, key, val, _)) in g.iter().enumerate() {
+                // a later item of the same group to the same key wins inside the group
+                if g.iter().skip(idx + 1).any(|(k2, key2, _, _)| k2 == ks && key2 == key) {
+                    continue;
+                }
+                let superseded = w.write_log.iter().skip(gi + 1).any(|h| h.iter().any(|(k2, key2, _, clear)| k2 == ks && (*clear || key2 == key)));
+                if superseded {
+                    continue;
+                }
+                let got = content.get(ksn(*ks)).unwrap_or(&empty).get(key);
+                match val {
+                    Some(v) => flags.push((format!("{}.{}", ksn(*ks), show_key(key)), got == Some(v))),
+                    None => {
+                        // a tombstone is only informative if the key existed before this group
+                        let existed = w.write_log.iter().take(gi).rev().find_map(|h| h.iter().rev().find(|(k2, key2, _, clear)| k2 == ks && (*clear || key2 == key)).map(|x| x.2.is_some()));
+                        if existed == Some(true) {
+                            flags.push((format!("{}.{}", ksn(*ks), show_key(key)), got.is_none()));
+                        }
+                    }
+                }
+            }
+            if flags.iter().any(|f| f.1) && flags.iter().any(|f| !f.1) {
+                return Err(Violation::new(
+                    "batch.partially_recovered",
+                    format!("write group #{gi} {:?}: after a process crash at the end of the program the recovered state {} contains only part of it", flags, crate::crash::show_content(&content)),
+                ));
+            }
+            if flags.iter().all(|f| !f.1) && !flags.is_empty() {
+                partial += 1;
+            }
+        }
+        let mut d = w.check_all(self.probe)?;
+        d.push(partial);
+        let mut h = std::collections::hash_map::DefaultHasher::new();
+        use std::hash::{Hash, Hasher};
+        crate::crash::show_content(&content).hash(&mut h);
+        d.push(h.finish());
+        Ok(d)
+    }
+
     /// C11: reopen, then new writes must supersede everything recovered.
     fn check_supersede(&self, w: &mut World) -> Result<Vec<u64>, Violation> {
         use fjall::Readable;
